@@ -309,7 +309,7 @@ class CubicSolveSpline(Contract):
             S.requires(p, 'point_diffs')
         S.terms(0, 1, n - 1, n, S.sk(0) - 1, S.sk(0) + 1)
         S.assigns(M, S.v('cached_c_prime_'), S.v('cached_inv_denoms_'))
-        S.ensures(C.R.eq(4 * n) & M.R.eq(n + 1), 'rows')
+        S.ensures(C.R.eq(4 * n) & M.R.eq(n + 1) & S.v('cached_c_prime_').R.eq(n) & S.v('cached_inv_denoms_').R.eq(n + 1), 'rows')
         hfun = lambda i: tp_field(S, i, 'h')
         for d in DS:
             S.ensures(S.forall(0, n, lambda i, d=d: cubic_rep(S, C, i, d)), 'closed_form_%d' % d)
@@ -467,7 +467,7 @@ def make_block_contracts(cls):
                 out += [implies(i > 0, x) for x in meq(mat_of(DTL, i - 1, b), tr_(mm(Lm(i), Dm(i - 1))))]
                 return out
             S.ensures(S.forall(0, nb, factor_facts, inst=[S.sk(0), S.sk(0) - 1]), 'cached_blocks_factorise_the_optimality_system')
-            S.ensures(implies(nb > 0, Lc.R.eq(nb) & Uc.R.eq(nb) & Dinv.R.eq(nb)), 'one_cached_block_per_interior_knot')
+            S.ensures(implies(nb > 0, Lc.R.eq(nb) & Uc.R.eq(nb) & Dinv.R.eq(nb) & DTL.R.eq(nb - 1)), 'one_cached_block_per_interior_knot')
 
             def bwd_fact(i, d, last=None):
                 i = E.const(i)
@@ -485,7 +485,7 @@ def make_block_contracts(cls):
                 out = [x.eq(y) for x, y in zip(flat(Dloc), flat(Dt))]
                 out += meq(mm(Dloc, Dm(i)), ident(b)) + meq(mm(Dm(i), Dloc), ident(b))
                 return out
-            sizes = lambda: conj([Lc.R.eq(nb), Uc.R.eq(nb), Dinv.R.eq(nb), rhs.R.eq(nb * b)] + [X.R.eq(n_pts) for X in Xout])
+            sizes = lambda: conj([Lc.R.eq(nb), Uc.R.eq(nb), Dinv.R.eq(nb), DTL.R.eq(nb - 1), rhs.R.eq(nb * b)] + [X.R.eq(n_pts) for X in Xout])
             boundary_rows = lambda: conj([X.at(0, d).eq(Bl(d)[j]) for j, X in enumerate(Xout) for d in range(D)] +
                                          [X.at(n_pts - 1, d).eq(Br(d)[j]) for j, X in enumerate(Xout) for d in range(D)])
             SK = [S.sk(0)]
@@ -580,6 +580,9 @@ def make_block_contracts(cls):
                 # the segment's coefficients are the first-principles Hermite coefficients (polynomial in the inverse duration)
                 hc = hermite_coeffs(s, iv_pow_of(S, i), [X[k].at(i, d) for k in range(s)], [X[k].at(E.const(i) + 1, d) for k in range(s)])
                 return [Cm.at(E.const(i) * nc + m, d).eq(hc[m]) for m in range(nc)]
+            S.ensures(implies(n > 1, S.v('L_blocks_cache_').R.eq(n - 1) & S.v('U_blocks_cache_').R.eq(n - 1) & S.v('D_inv_cache_').R.eq(n - 1)) &
+                      implies(n > 2, S.v('D_inv_T_mul_L_next_T_cache_').R >= n - 2), 'one_cached_block_per_interior_knot')
+            S.ensures(S.forall(0, n - 1, lambda k: block_factor_facts(S, cls, k, DS[0]), inst=[S.sk(0), S.sk(0) - 1]), 'cached_blocks_factorise_the_optimality_system')
             for d in DS:
                 S.ensures(S.forall(0, n, lambda i, d=d: herm(C, i, d)), 'hermite_coefficients_%d' % d)
                 for k in range(s, 2 * s - 1):
@@ -666,6 +669,7 @@ def published(S, cls):
         out.append(('trajectory_breakpoints_are_knot_times_%d' % j, p))
     for j, p in enumerate(same_contents_mat(S, T.fields['coefficients_'], C, D)):
         out.append(('trajectory_coefficients_are_spline_coefficients_%d' % j, p))
+    out += [('built_' + lab, p) for lab, p in built_invariant(S, cls)]
     hfun = lambda i: seg.at(i)
     for d in dims(S):
         out.append(('interpolates_left_end_%d' % d, S.forall(0, n, lambda i, d=d: C.at(i * nc, d).eq(P.at(i, d)))))
@@ -673,9 +677,20 @@ def published(S, cls):
         for k in range(1, s):
             out.append(('start_%s_%d' % (BC_FIELDS[k - 1], d), der(C, nc, 0, k, 0, d).eq(bc.fields['start_' + BC_FIELDS[k - 1]].at(d, 0))))
             out.append(('end_%s_%d' % (BC_FIELDS[k - 1], d), der(C, nc, n - 1, k, hfun(n - 1), d).eq(bc.fields['end_' + BC_FIELDS[k - 1]].at(d, 0))))
-        for k in range(1, s):
+        for k in range(1, 2 * s - 1):
             out.append(('continuous_derivative_%d_%d' % (k, d), S.forall(1, n, lambda m, k=k, d=d: der(C, nc, m, k, 0, d).eq(der(C, nc, m - 1, k, hfun(m - 1), d)))))
+        if cls != 'CubicSplineND':
+            out.append(('hermite_coefficients_%d' % d, S.forall(0, n, lambda i, d=d: hermite_form(S, cls, C, i, d))))
     return out
+
+
+def hermite_form(S, cls, C, i, d):
+    """the coefficients of segment i are the first-principles Hermite coefficients of its end values and end derivatives"""
+    s = ORDER_OF[cls]
+    nc = 2 * s
+    X = [S.v('spatial_points_')] + [S.v(f) for f in KNOT_FIELDS[cls]]
+    hc = hermite_coeffs(s, iv_pow_of(S, i), [X[k].at(i, d) for k in range(s)], [X[k].at(E.const(i) + 1, d) for k in range(s)])
+    return [C.at(E.const(i) * nc + m, d).eq(hc[m]) for m in range(nc)]
 
 
 def make_assembly_contracts(cls):
@@ -1027,6 +1042,47 @@ def ident(b):
 
 def tr_(A):
     return [[A[c][r] for c in range(len(A))] for r in range(len(A[0]))]
+
+
+def block_factor_facts(S, cls, k, d0=0):
+    """what the cached blocks of the block-Thomas factorisation satisfy for block k (interior knot k+1): the stored L/U blocks are the
+    spec blocks, the stored pivot inverse is a left inverse of the eliminated pivot, the stored product block is (L_k Dinv_(k-1))^T"""
+    b = ORDER_OF[cls] - 1
+    Lc, Uc, Dinv, DTL = S.v('L_blocks_cache_'), S.v('U_blocks_cache_'), S.v('D_inv_cache_'), S.v('D_inv_T_mul_L_next_T_cache_')
+    Lm = lambda i: mat_of(Lc, i, b)
+    Um = lambda i: mat_of(Uc, i, b)
+    Dm = lambda i: mat_of(Dinv, i, b)
+    BS = BlockSpec(S, cls, k, d0)
+    k = E.const(k)
+    out = meq(Lm(k), BS.L) + meq(Um(k), BS.U)
+    Dt = msub(BS.D, mm(Lm(k), mm(Dm(k - 1), Um(k - 1))))
+    out += [implies(k.eq(0), x) for x in meq(mm(Dm(k), BS.D), ident(b))]
+    out += [implies(k > 0, x) for x in meq(mm(Dm(k), Dt), ident(b))]
+    out += [implies(k > 0, x) for x in meq(mat_of(DTL, k - 1, b), tr_(mm(Lm(k), Dm(k - 1))))]
+    return out
+
+
+def built_invariant(S, cls):
+    """representation invariant of a built spline beyond what it publishes: cached inverse powers, point differences, knot
+    derivative rows, cached factorisation -- what the gradient code (C05, C06) reads"""
+    n = S.num_segments_
+    out = [('sizes', sizes_ok(S, cls))]
+    for j, p in enumerate(all_tp_ok(S, cls)):
+        out.append(('cached_time_powers_%d' % j, p))
+    for j, p in enumerate(pd_ok(S)):
+        out.append(('cached_point_differences_%d' % j, p))
+    if cls == 'CubicSplineND':
+        out.append(('knot_second_derivative_rows', S.v('internal_derivatives_').R.eq(n + 1) & S.v('cached_c_prime_').R.eq(n) & S.v('cached_inv_denoms_').R.eq(n + 1)))
+        out.append(('cached_factor_first', cubic_factor_first(S)))
+        out.append(('cached_factors', S.forall(1, n, lambda k: cubic_factor_mid(S, k))))
+        out.append(('cached_factor_last', cubic_factor_last(S, n)))
+    else:
+        nb = n - 1
+        out.append(('knot_derivative_rows', conj([S.v(f).R.eq(n + 1) for f in KNOT_FIELDS[cls]])))
+        out.append(('one_cached_block_per_interior_knot', implies(nb > 0, S.v('L_blocks_cache_').R.eq(nb) & S.v('U_blocks_cache_').R.eq(nb) & S.v('D_inv_cache_').R.eq(nb)) &
+                    implies(nb > 1, S.v('D_inv_T_mul_L_next_T_cache_').R >= nb - 1)))
+        out.append(('cached_blocks_factorise_the_optimality_system', S.forall(0, nb, lambda k: block_factor_facts(S, cls, k, dims(S)[0]), inst=[S.sk(0), S.sk(0) - 1])))
+    return out
 
 
 # ------------------------------------------------------------------------------------------------ gradient entry points: shapes and frames
